@@ -83,3 +83,14 @@ pub fn core_error_name(_e: &gmsol_store::CoreError) -> String {
 pub fn fmt_core_error(_e: &gmsol_store::CoreError, _f: &mut std::fmt::Formatter<'_>) -> std::fmt::Result {
     Ok(())
 }
+
+/// `u128::to_string()` / `u64::to_string()` / `i64::to_string()` (used by `require_gte!`,
+/// `require_eq!`, … to render the compared values) bypass `Display::fmt` through a specialised
+/// fast path (`_fmt`); rendering a symbolic integer is dozens of symbolic wide divisions. Error
+/// texts are never the subject.
+pub unsafe fn u128_fmt<'a>(_v: u128, _buf: &'a mut [core::mem::MaybeUninit<u8>]) -> &'a str {
+    ""
+}
+pub unsafe fn u64_fmt<'a>(_v: u64, _buf: &'a mut [core::mem::MaybeUninit<u8>]) -> &'a str {
+    ""
+}
